@@ -1,0 +1,108 @@
+//go:build verif
+
+// Contracts for the fvc verification-condition generator in /verif (comment-only file).
+// Round B: module functions of the root package whose contracts used to be ASSUMED (bodies not checked) although
+// callers rely on them, and the helpers needed to check them. See REPORT.md of this round for what remains assumed.
+
+package fiber
+
+// ---------------------------------------------------------------------------------------------
+// The three constructors New() calls between the creation of the App object (which stores the zero-copy conversions
+// in app.getString / app.getBytes) and the Immutable switch: each builds one object of its own and writes nothing
+// else - without these frames New() loses what it stored before the calls (an un-contracted callee havocs the heap).
+// ---------------------------------------------------------------------------------------------
+//@ func newHooks fresh
+//@   props C06 C04
+//@   pure
+//@   ensures fresh-object: result != nil && !old(allocated(result))
+//@   ensures hooks-of-this-app-none-registered: result.app == app && len(result.onRoute) == 0 && len(result.onGroup) == 0 && len(result.onName) == 0 && len(result.onGroupName) == 0 && len(result.onMount) == 0 && len(result.onListen) == 0
+//@ func newMountFields fresh
+//@   props C06 C08
+//@   pure
+//@   ensures fresh-object: result != nil && !old(allocated(result))
+//@   ensures lists-only-itself: result.appList != nil && indom(result.appList, "") && result.appList[""] == app && forallS(k, indom(result.appList, k) ==> k == "") && len(result.appListKeys) == 0 && result.mountPath == ""
+//@ func newState fresh
+//@   props C06
+//@   pure
+//@   ensures fresh-object: result != nil && !old(allocated(result))
+
+// ---------------------------------------------------------------------------------------------
+// Status / SendString / SendStatus (C08, C07, C12): the response status as the ghost state of fiber_ctx.spec sees it.
+// ---------------------------------------------------------------------------------------------
+// Status(status): the code is handed, as given, to SetStatusCode of THIS context's response (leaf contract in mw_C14.spec:
+// outStatus == statusCode && outStatusSet) and the context itself is returned (chainable).
+// sentStatus is the Ctx-level name of the same fact ("last status passed to Status / SendStatus", fiber_ctx.spec). There is
+// no ghost assignment in bodies and the leaf contract of SetStatusCode speaks about outStatus, so the link
+// sentStatus == outStatus is the ONE trusted clause (documented idiom: glue function <-> ghost state); everything that
+// can go wrong in the body (other code, other response, no call) is caught by the checked clauses.
+//@ func (*DefaultCtx).Status
+//@   props C08 C07 C12
+//@   modifies sentStatus, outStatus, outStatusSet
+//@   atcall @fasthttp.(*Response).SetStatusCode: code-as-given-on-own-response: statusCode == status && resp == &c.fasthttp.Response
+//@   ensures status-written-to-the-response: outStatusSet && outStatus == status
+//@   ensures returns-this-context: typeis(result, *DefaultCtx) && as(result, *DefaultCtx) == c
+//@   trusted ensures sentStatus == status
+
+// SendString(body): writes the body of this context's response, cannot fail, touches nothing the contracts model
+// (SetBodyString: assumed pure in mw_C07.spec - the response body is read through the epoch-indexed observer rBody).
+//@ func (*DefaultCtx).SendString
+//@   props C08 C07
+//@   pure
+//@   atcall @fasthttp.(*Response).SetBodyString: body-as-given-on-own-response: body == old(body) && resp == &c.fasthttp.Response
+//@   ensures never-fails: result == nil
+
+// ---------------------------------------------------------------------------------------------
+// Registration hooks (hooks.go). addRoute (C01, C02) and the group constructors (C04) call them after the route /
+// group exists. What used to be assumed about the two functions (`pure`) is now checked against their bodies; the
+// assumption that remains is the one about the application's own callbacks, where it belongs: a user hook is handed a
+// COPY of the route / group (by value) and is assumed not to write the framework's objects.
+// ---------------------------------------------------------------------------------------------
+// hookRuns counts the hook calls (environment ghost: bookkeeping of the contracts, exempt from frame checks - the hooks
+// are otherwise `pure`, and so are the two functions below for every heap location).
+//@ envghost hookRuns int
+//@ func Hooks.onRoute$elem(route) assumed
+//@   modifies hookRuns
+//@   ensures hookRuns == old(hookRuns) + 1
+//@ func Hooks.onGroup$elem(group) assumed
+//@   modifies hookRuns
+//@   ensures hookRuns == old(hookRuns) + 1
+
+// executeOnRouteHooks: every OnRoute hook, in registration order, sees the route with the path as the ROOT application
+// serves it (mount path of this app + the route's own path, in both spellings Path/path; everything else as registered);
+// the first failing hook ends the run and its error is the result; no hooks (the case of every app that registers
+// none), no error. The caller's route is not touched (by-value parameter; the frame `modifies hookRuns` - nothing on the heap - checks it).
+//@ func (*Hooks).executeOnRouteHooks
+//@   props C01 C02 C04
+//@   modifies hookRuns
+//@   loop 1
+//@     invariant index: rangeindex + 1 <= len(h.onRoute)
+//@     invariant none-failed-so-far: rangeindex >= 0 ==> called(Hooks.onRoute$elem) && last(Hooks.onRoute$elem) == nil
+//@     invariant one-run-per-hook-so-far: hookRuns == old(hookRuns) + rangeindex + 1
+//@   atcall Hooks.onRoute$elem: hook-in-registration-order: fnvalue == h.onRoute[rangeindex + 1]
+//@   atcall Hooks.onRoute$elem: sees-the-path-under-the-mount-point: arg0.path == old(h.app.mountFields.mountPath) + old(route.path) &&
+//@ ..    arg0.Path == ite(old(h.app.mountFields.mountPath) != "", old(h.app.mountFields.mountPath) + old(route.path), old(route.Path))
+//@   atcall Hooks.onRoute$elem: everything-else-as-registered: arg0.Method == old(route.Method) && arg0.Name == old(route.Name) && arg0.Params == old(route.Params) && arg0.Handlers == old(route.Handlers)
+//@   ensures no-hooks-no-error: len(h.onRoute) == 0 ==> result == nil
+//@   ensures error-is-a-hooks-error: result != nil ==> called(Hooks.onRoute$elem) && result == last(Hooks.onRoute$elem)
+//@   ensures nil-means-every-hook-passed: result == nil && len(h.onRoute) > 0 ==> called(Hooks.onRoute$elem) && last(Hooks.onRoute$elem) == nil
+//@   ensures every-hook-ran-once-unless-one-failed: result == nil ==> hookRuns == old(hookRuns) + len(h.onRoute)
+//@   ensures stops-at-the-first-failure: result != nil ==> hookRuns <= old(hookRuns) + len(h.onRoute) && hookRuns > old(hookRuns)
+
+// executeOnGroupHooks: the same for OnGroup hooks; the copy of the group carries the prefix under the mount point.
+//@ func (*Hooks).executeOnGroupHooks
+//@   props C04
+//@   modifies hookRuns
+//@   loop 1
+//@     invariant index: rangeindex + 1 <= len(h.onGroup)
+//@     invariant none-failed-so-far: rangeindex >= 0 ==> called(Hooks.onGroup$elem) && last(Hooks.onGroup$elem) == nil
+//@     invariant one-run-per-hook-so-far: hookRuns == old(hookRuns) + rangeindex + 1
+//@   atcall Hooks.onGroup$elem: hook-in-registration-order: fnvalue == h.onGroup[rangeindex + 1]
+//@   atcall Hooks.onGroup$elem: sees-the-prefix-under-the-mount-point: arg0.Prefix == old(h.app.mountFields.mountPath) + old(group.Prefix) && arg0.app == old(group.app)
+//@   ensures no-hooks-no-error: len(h.onGroup) == 0 ==> result == nil
+//@   ensures error-is-a-hooks-error: result != nil ==> called(Hooks.onGroup$elem) && result == last(Hooks.onGroup$elem)
+//@   ensures nil-means-every-hook-passed: result == nil && len(h.onGroup) > 0 ==> called(Hooks.onGroup$elem) && last(Hooks.onGroup$elem) == nil
+//@   ensures every-hook-ran-once-unless-one-failed: result == nil ==> hookRuns == old(hookRuns) + len(h.onGroup)
+//@   ensures stops-at-the-first-failure: result != nil ==> hookRuns <= old(hookRuns) + len(h.onGroup) && hookRuns > old(hookRuns)
+
+// ---------------------------------------------------------------------------------------------
+// (*Bind).Form / (*Bind).Query, returnErr, validateStruct: checked contracts in zz_contracts_bind_verif.go (binder round).
